@@ -438,8 +438,47 @@ def job_models(tier, rng):
                evaluations=cnt, distinct_nontrivial=cnt, witness=bad, native=dict(confirmed=bad is not None), sample=dict(model='ConcurrenceModel', state='bell', num_term=4, scale=1.0))]
 
 
+def job_model_reuse(tier, rng):
+    """histories: ONE model instance is given several density matrices in turn (set_density_matrix again and again, as in a scan over a family of states); after every call the
+    loss at arbitrary parameters must bound the closed form of the CURRENT state from above (nothing of the earlier state may survive in cached contractions)."""
+    bad = None; cnt = 0
+    E = numqi.entangle
+    sts = [s for s in _states(rng, 'quick') if s[0].startswith(('haar', 'werner_1.0', 'isotropic_0.6', 'near', 'bell'))]
+    full = [(l, r) for l, r in sts if int(np.linalg.matrix_rank(r, tol=1e-9)) == 4] or sts
+    ent = sorted(sts, key=lambda x: -float(E.get_concurrence_2qubit(x[1])))[:3]
+    seqs = [ent + full[:2] + ent[::-1], full[:3] + ent[:1]]
+    for nterm in (4, 8):
+        for mk, ref_of in [(lambda: E.EntanglementFormationModel(2, 2, nterm), lambda r: float(E.get_eof_2qubit(r))), (lambda: E.ConcurrenceModel(2, 2, nterm), lambda r: float(E.get_concurrence_2qubit(r))),
+                           (lambda: E.DensityMatrixLinearEntropyModel((2, 2), nterm), lambda r: float(E.get_concurrence_2qubit(r)) ** 2 / 2), (lambda: E.DensityMatrixGMEModel((2, 2), nterm), lambda r: float(E.get_gme_2qubit(r)))]:
+            for seq in seqs:
+                try:
+                    m = mk(); name = type(m).__name__
+                    hist = []
+                    for label, rho in seq:
+                        hist.append(label)
+                        m.set_density_matrix(rho)
+                        ref = ref_of(rho)
+                        for scale in (0.1, 1.0):
+                            with torch.no_grad():
+                                for p_ in m.parameters():
+                                    p_.copy_(torch.tensor(rng.normal(size=tuple(p_.shape)) * scale, dtype=p_.dtype))
+                                loss = float(m())
+                            cnt += 1
+                            if not (np.isfinite(loss) and loss >= ref - 1e-7) and bad is None:
+                                bad = dict(model=name, num_term=nterm, history_of_states=list(hist), loss=loss, closed_form_of_current_state=ref, current_state=jsonable(rho))
+                except Exception as ex:
+                    if not from_repo(ex):
+                        raise
+                    cnt += 1
+                    if bad is None:
+                        bad = dict(num_term=nterm, exception=f'{type(ex).__name__}: {ex}')
+    return [ob(f'{PROP}.convex_roof_models_reused_across_states_upper_bound_current_state', 'pass' if bad is None else 'refuted', tier='B', backend='native',
+               functions=['numqi.entangle.eof:EntanglementFormationModel', 'numqi.entangle.eof:ConcurrenceModel', 'numqi.entangle.measure:DensityMatrixGMEModel', 'numqi.entangle.measure:DensityMatrixLinearEntropyModel'],
+               evaluations=cnt, distinct_nontrivial=cnt, witness=bad, native=dict(confirmed=bad is not None))]
+
+
 def jobs(tier):
-    return [('job_core', {}), ('job_closed_forms', {}), ('job_models', {})]
+    return [('job_core', {}), ('job_closed_forms', {}), ('job_models', {}), ('job_model_reuse', {})]
 
 
 def replay(rec):
